@@ -422,6 +422,10 @@ def search(ctx, broken):
         for lbl, d in g.mutants(rng, None, [sd], budget // 2, trunc_limit=None):
             add('c2pal %d %s' % (fmt, g.hexs(d)), 'Palette::load_palette(%s)' % PAL_NAMES[fmt], lbl)
         add('c2palx %d %d' % (fmt, rng.choice([0, 1, 16, 17])), 'Palette::export_palette(%s)' % PAL_NAMES[fmt], 'export')
+        if fmt != 5:
+            # every number of the text file at its extremes (count lines, channel values, version fields)
+            for d in g.text_number_extremes(sd):
+                add('c2pal %d %s' % (fmt, g.hexs(d)), 'Palette::load_palette(%s)' % PAL_NAMES[fmt], 'number-extreme')
     for _ in range(budget * 2):
         d = g.random_bytes(rng)[:rng.randrange(200)] + g.sauce_tail(rng)
         r = rng.random()
